@@ -242,9 +242,12 @@ def Act.isTask : Act → Bool
 
 /-- Scheduling hypothesis of the `_partial` theorems: once a connection task has started to close, it
 finishes (notice delivered, `NotificationStreamClosed` reported) before the protocol handles anything
-else for that peer. Only the task's own steps and the delivery of its notice are allowed meanwhile. -/
+else for that peer. Only the task's own steps and the delivery of its notice are allowed meanwhile.
+(That a notice already in the channel is taken before later transport events and user commands is what
+the biased `select!` of `next_event` does; that the task gets from "closing" to "notice sent" in time is
+the genuine assumption: it fails when `Substream::close()` stays pending.) -/
 def prompt (s : PeerSys) (a : Act) : Bool :=
-  if Busy s then
+  if Busy s || s.notices > 0 then
     a.isTask || (match a with | .notice => true | _ => false)
   else true
 
